@@ -20,7 +20,7 @@ def mk_tx(d):
         wit = CTxWitness(tuple(CTxInWitness(CScriptWitness(tuple(st))) for st in wits))
     else:
         wit = CTxWitness()
-    return CTransaction(vin, vout, lock, 1, wit)
+    return CTransaction(vin, vout, lock, 1 + lock % 3, wit)       # version: see txid_of in tools/props/C15.py
 
 
 def obs(f):
